@@ -643,6 +643,24 @@ def run_check(prop_id, tier="quick", seed=0, replay=None):
                 if stats["extra"]["history_dependent_results"] >= 5:
                     break
         stats.setdefault("extra", {})["history_independence_reruns"] = nre
+        # the same calls with bytes arguments passed as another bytes-like type, for the ops a property lists in
+        # BYTEARRAY_OPS / MEMORYVIEW_OPS (ops whose answer does not depend on the concrete bytes-like type on the pinned
+        # tree - tools/bytearray_probe.py; for bytearray the caller's buffer must also stay intact)
+        for kind, attr in (("bytearray", "BYTEARRAY_OPS"), ("memoryview", "MEMORYVIEW_OPS")):
+            v_ops = set(getattr(prop, attr, ()))
+            nv = 0
+            if not v_ops:
+                continue
+            for (c, ir0) in [x for x in sample if x[0]["op"] in v_ops and any(isinstance(a, bytes) for a in x[0]["args"])][:120]:
+                ir1 = impl.call(c["op"] + "@" + kind, c["args"], timeout=c.get("timeout"))
+                if canon and ir1[0] == "ok":
+                    ir1 = ("ok", canon(c, ir1[1]))
+                nv += 1
+                same = (ir0[0] == ir1[0]) and (norm(ir0[1]) == norm(ir1[1]) if ir0[0] == "ok" else True)
+                if not same:
+                    c2 = dict(c, cls=c["cls"] + "@" + kind)
+                    disagreements.append((c2, ir1, ("ok", ir0[1]) if ir0[0] == "ok" else ("err", ir0[1])))
+            stats["extra"][kind + "_variants"] = nv
 
     # ---- search: turn disagreements into failing inputs of the property ----
     shrink = getattr(prop, "shrink", None)
@@ -918,8 +936,11 @@ def run_replay(prop, path):
     model_call = getattr(prop, "model_call", None)
     canon = getattr(prop, "canon", None)
     ir = impl.call(c["op"], c["args"], timeout=c.get("timeout"))
-    op, args = model_call(c) if model_call else (prop.ID.lower() + "_" + c["op"], c["args"])
-    mr = model.call(op, args)
+    if c.get("expect") is not None:        # spec value computed by the generator itself (as in run_check.eval_case)
+        mr = (c["expect"][0], c["expect"][1])
+    else:
+        op, args = model_call(c) if model_call else (prop.ID.lower() + "_" + c["op"], c["args"])
+        mr = model.call(op, args)
     if canon:
         if ir[0] == "ok":
             ir = ("ok", canon(c, ir[1]))
